@@ -101,6 +101,41 @@ def sha(path):
     return hashlib.sha256(open(path, "rb").read()).hexdigest()
 
 
+def reuse_family(ck, rnd, wd):
+    trace = []; owner = []; sb = {}
+    k = 0
+    for (fname, buf) in base_files(random.Random(common.seed()))[:4]:
+        h = ref.parse_header(buf)
+        if not h.ok or len(h.entries) < 3:
+            continue
+        det = b"\0ZHR1" + buf[5:h.hdr_total + h.entries[0]["clen"]]
+        dp = os.path.join(wd, "reuse%d.zhr" % k); open(dp, "wb").write(det)
+        a, z = h.hdr_total + h.entries[-1]["start"], h.hdr_total + h.entries[-1]["start"] + h.entries[-1]["clen"]
+        for sname, b in (("intact", buf), ("lastdamaged", buf[:z - 1] + bytes([buf[z - 1] ^ 1]) + buf[z:]), ("cut", buf[:(a + z) // 2])):
+            for call in ("find_valid", "validate_checksums", "validate_data"):
+                cid = "reuse%d" % k; k += 1
+                p = os.path.join(wd, cid + ".zck"); open(p, "wb").write(b)
+                rf = ref.RefFile(b); ff = readtrace.facts(rf)
+                if rf.h.ok and rf.h.entries and rf.h.entries[0]["clen"] == 0 and ff["cok"]:
+                    ff["cok"][0] = True
+                scr = "case %s 30\nctx 0\nopen 0 %s r\ninit_adv_read 0 0\nvalidate_lead 0\nclosefd 0\nopen 0 %s r\ninit_adv_read 0 0\nread_lead 0\nread_header 0\n%s 0\nend\n" % (cid, dp, p, call)
+                ev = common.run_driver(scr, "plain")
+                name = "%s/%s on a context that validated a detached header's lead before, %s" % (fname, sname, call)
+                trace.append({"op": "begin", "case": name}); owner.append(cid)
+                rh = [e for e in ev if e["op"] == "read_header"]
+                trace.append({"op": "open", "f": ff, "ret": rh[-1]["ret"] if rh else 0}); owner.append(cid)
+                for e in ev:
+                    if e["op"] in ("find_valid", "validate_checksums") or (e["op"] == "validate_data" and (rf.h.flags & 4)):
+                        trace.append({"op": "scan", "call": e["op"], "ret": e["ret"], "vec": e.get("valid", []), "es": 0}); owner.append(cid)
+                    elif e["op"] == "validate_data":
+                        trace.append({"op": "valdata", "ret": e["ret"], "es": 0}); owner.append(cid)
+                    elif e["op"] in ("Crash", "Hang"):
+                        trace.append({"op": e["op"]}); owner.append(cid)
+                sb[cid] = (scr, name, [dp, p]); ck.case(name)
+    validate_segments(ck, "C09", trace, owner, wd, scripts_by=sb, start_ops=("begin",))
+    ck.extra["scans_on_a_context_reused_after_a_detached_header"] = k
+
+
 def run(tier):
     ck = Check("C09", tier)
     rnd = random.Random(common.seed())
@@ -223,6 +258,9 @@ def run(tier):
         ok, res = common.validate_trace("Trace_Reader", "Trace_Reader.cfg", p)
         if ok:
             raise Broken("negative control: a wrong classification was accepted")
+    # a context that has looked at a detached header's lead before (zck_validate_lead on a candidate, as a client probing its
+    # cache does) and is then opened, through the advanced calls, for a full file: the scan classifies every chunk of THAT file
+    reuse_family(ck, rnd, wd)
     # every history of reads, validations, chunk requests and clear_error on one context (MC_Session): the validations judged
     from .. import session
     session.run_session(ck, "C09", "scan", tier, wd, rnd)
